@@ -25,10 +25,15 @@ class SchedAbort(BaseException):
     """raised inside a parked worker thread when the run is abandoned"""
 
 
+class StructureDiffers(Exception):
+    """the lock objects of the real RWLock are not the five distinct per-instance locks of the specification"""
+
+
 class CLock:
     """threading.Lock stand-in: parks before the operation, then performs it on a real lock.
     The scheduler is looked up through the factory at every call, so that a lock object that
     outlives one run (e.g. one created when the module was loaded) is driven by the current run."""
+    kind = "Lock"
 
     def __init__(self, ft):
         self.ft = ft
@@ -49,6 +54,9 @@ class CLock:
     def reset(self):
         self.real = _thread.allocate_lock()
         self.owner = 0
+
+    def free_for(self, tid):
+        return self.owner == 0
 
     def acquire(self, blocking=True, timeout=-1):
         if not blocking or timeout != -1:
@@ -80,20 +88,76 @@ class CLock:
         self.release()
 
 
+class CRLock(CLock):
+    """threading.RLock stand-in: owned by the acquiring thread, re-entrant for it (count); release() by a thread that
+    does not own it raises RuntimeError('cannot release un-acquired lock') exactly like the real one."""
+    kind = "RLock"
+
+    def __init__(self, ft):
+        CLock.__init__(self, ft)
+        self.count = 0
+
+    def reset(self):
+        CLock.reset(self)
+        self.count = 0
+
+    def free_for(self, tid):
+        return self.owner == 0 or self.owner == tid
+
+    def acquire(self, blocking=True, timeout=-1):
+        w = self.sched.park("acquire" if blocking and timeout == -1 else "tryacquire", self)
+        if self.owner == w.tid:
+            self.count += 1
+            return True
+        if self.owner != 0:
+            if not blocking or timeout != -1:
+                return False
+            self.sched.broken = "thread %d was scheduled to acquire %s but it is owned by thread %d" % (w.tid, self.name, self.owner)
+            raise RuntimeError(self.sched.broken)
+        self.real.acquire(False)
+        self.owner, self.count = w.tid, 1
+        return True
+
+    def release(self):
+        w = self.sched.park("release", self)
+        if self.owner != w.tid:
+            raise RuntimeError("cannot release un-acquired lock")
+        self.count -= 1
+        if self.count == 0:
+            self.owner = 0
+            self.real.release()
+
+    def locked(self):
+        return self.owner != 0
+
+
 class FakeThreading:
-    """what the module under test sees as `threading`"""
+    """what the module under test sees as `threading`.  Lock() and RLock() are modelled; a lock that is created by a
+    controlled thread (not when the RWLock is constructed) is a scheduling point of its own ("create"): the window between
+    the decision to create it and its first use can be pre-empted.  Any other primitive is a structural difference between
+    the code and the specification (five plain locks), reported as such - not a failure of the tool."""
 
     def __init__(self, sched=None):
         self.sched = sched
         self.made = []
 
+    def _create(self, cls):
+        s = self.sched
+        if s is not None and s.by_ident.get(_thread.get_ident()) is not None:
+            s.park("create", None)
+        return cls(self)
+
     def Lock(self):
-        return CLock(self)
+        return self._create(CLock)
+
+    def RLock(self):
+        return self._create(CRLock)
 
     def __getattr__(self, name):
         if name.startswith("__"):
             raise AttributeError(name)
-        raise MachineryError("the code under test uses threading.%s, which the controlled scheduler does not model" % name)
+        raise StructureDiffers("the code under test uses threading.%s; the specification (and the controlled scheduler) "
+                               "know threading.Lock and threading.RLock only" % name)
 
 
 class Worker:
@@ -168,7 +232,7 @@ class Scheduler:
         out = set()
         for tid, w in self.workers.items():
             op, lk = w.pending
-            if op in ("release", "cs", "tryacquire") or (op == "acquire" and lk.owner == 0):
+            if op in ("release", "cs", "tryacquire", "create") or (op == "acquire" and lk.free_for(tid)):
                 out.add(tid)
         return out
 
@@ -248,10 +312,6 @@ def load_under_factory(path, name):
     return m
 
 
-class StructureDiffers(Exception):
-    """the lock objects of the real RWLock are not the five distinct per-instance locks of the specification"""
-
-
 def lock_objects(rw):
     """name -> underlying lock object of a real RWLock instance (MachineryError if the attributes are gone)"""
     out = {}
@@ -271,17 +331,17 @@ def structure_problems(module):
     a, b = lock_objects(module.RWLock()), lock_objects(module.RWLock())
     probs = []
     names = list(a)
+    is_lock = lambda o: hasattr(o, "acquire") and hasattr(o, "release")
     for i, x in enumerate(names):
         for y in names[i + 1:]:
-            if a[x] is a[y]:
+            if a[x] is a[y] and is_lock(a[x]):
                 probs.append("%s and %s of one RWLock are the same lock object" % (x, y))
     for x in names:
         for y in names:
-            if a[x] is b[y]:
+            if a[x] is b[y] and is_lock(a[x]):
                 probs.append("%s of one RWLock and %s of another RWLock are the same lock object" % (x, y))
-    for x in names:
-        if not (hasattr(a[x], "acquire") and hasattr(a[x], "release")):
-            probs.append("%s is not a lock" % x)
+    # (an attribute that holds no lock after construction - allocated later - is not a difference by itself: the walk
+    #  schedules the creation and compares the behaviour)
     return probs
 
 
@@ -305,18 +365,29 @@ class RealRW:
         self._patch.__enter__()
         try:
             self.rw = module.RWLock()
-            self.named = lock_objects(self.rw)
-            for name, o in self.named.items():
-                if not isinstance(o, CLock):
-                    raise StructureDiffers("RWLock.%s is not created by threading.Lock() when the RWLock is constructed" % name)
-                o.name = "=".join(n for n in LOCK_ORDER if self.named[n] is o)     # one name unless the object is shared
-                o.reset()
+            for name, o in self._resolve().items():
+                if o is not None:
+                    o.reset()
             self.rs, self.ws = self.rw._RWLock__read_switch, self.rw._RWLock__write_switch
             for tid in range(1, R + W + 1):
                 self.sched.start(tid, self._reader if tid <= R else self._writer)
         except BaseException:
             self.close(abandon=True)
             raise
+
+    def _resolve(self):
+        """name -> controlled lock currently behind the attribute (None: no lock there yet); names the locks"""
+        named = lock_objects(self.rw)
+        for name, o in named.items():
+            if o is None or not (hasattr(o, "acquire") and hasattr(o, "release")):
+                named[name] = None
+            elif not isinstance(o, CLock):
+                raise StructureDiffers("RWLock.%s is a lock that was not made through the module's `threading`" % name)
+        for o in self.sched.locks:
+            o.name = "?"                                                   # (a lock that is behind no attribute any more)
+        for o in set(x for x in named.values() if x is not None):
+            o.name = "=".join(n for n in LOCK_ORDER if named[n] is o)      # one name unless the object is shared
+        return named
 
     def _cycle(self, w, acq, rel):
         w.left = self.passes
@@ -342,7 +413,10 @@ class RealRW:
         """(owner of rq nr nw rm wm, rc, wc, ((phase, op, lock, left) per thread), inside, runnable)"""
         thr = []
         for tid in range(1, self.R + self.W + 1):
-            w = self.sched.workers[tid]
+            w = self.sched.workers.get(tid)
+            if w is None:
+                thr.append(("start", "none", "-", 0))
+                continue
             op, lk = w.pending
             if op == "done":
                 thr.append(("done", "none", "-", w.left))
@@ -350,7 +424,8 @@ class RealRW:
                 thr.append(("crashed", str(lk), "-", w.left))
             else:
                 thr.append((w.phase, op, lk.name if lk is not None else "-", w.left))
-        return (tuple(self.named[n].owner for n in LOCK_ORDER),
+        named = self._resolve()
+        return (tuple(named[n].owner if named[n] is not None else 0 for n in LOCK_ORDER),
                 self.rs._LightSwitch__counter, self.ws._LightSwitch__counter,
                 tuple(thr), frozenset(self.inside), frozenset(self.sched.runnable()))
 
@@ -543,7 +618,8 @@ def run_paths(graph, info, module, R, W, passes, paths, max_mismatch=3):
 
 def find_deadlock(module, R, W, passes, max_states=20000):
     """Exhaustive search of the REAL lock's own lock-level state space (DFS with replay from the start) for a
-    state in which no thread can run although not all are done.  Returns (schedule of tids, projected state) or None."""
+    state in which no thread can run although not all are done, or in which a thread has crashed (an exception out of
+    the lock code).  Returns (schedule of tids, projected state) or None."""
     seen, stack = set(), [[]]
     while stack:
         sch = stack.pop()
@@ -560,7 +636,7 @@ def find_deadlock(module, R, W, passes, max_states=20000):
         if len(seen) > max_states:
             return None
         runnable = proj[5]
-        if not runnable and any(th[0] != "done" for th in proj[3]):
+        if any(th[0] == "crashed" for th in proj[3]) or (not runnable and any(th[0] != "done" for th in proj[3])):
             return sch, proj
         for t in sorted(runnable, reverse=True):
             stack.append(sch + [t])
@@ -601,6 +677,7 @@ class Preempter:
         self.lineno = 0
         self.where = ""
         self.targets = []           # stack of active frames of the traced function
+        self.prev_locals = {}
         self.thread = threading.Thread(target=self._main, daemon=True)
 
     def _global(self, frame, event, arg):
@@ -620,6 +697,8 @@ class Preempter:
             if self.stop_at is not None and self.count == self.stop_at and not self.stopped:
                 self.stopped = True
                 self.frame_locals = dict(self.targets[-1].f_locals) if self.targets else {}
+                for k, v in self.prev_locals.items():       # an earlier, completed invocation of the traced function
+                    self.frame_locals.setdefault(k, v)
                 self.lineno = frame.f_lineno
                 self.where = frame.f_code.co_name
                 if self.interrupt:
@@ -633,6 +712,7 @@ class Preempter:
                 return None
             self.count += 1
         elif event == "return" and self.targets and frame is self.targets[-1]:
+            self.prev_locals = dict(frame.f_locals)
             self.targets.pop()
         return self._local
 
